@@ -45,6 +45,12 @@ Init == \/ fam = "full" /\ par \in {<<bc, w, h>> : bc \in Depths, w \in 0..MaxWi
         \/ fam = "ts-rand" /\ par \in {<<r>> : r \in 1..(NRand \div 10)}
         \/ fam = "ts-partial" /\ par \in {<<h, k>> : h \in {32, -64}, k \in {1, 2, 100, 255}}        \* a tileset stored as a standard bitmap that declares k used colours
         \/ fam = "wide" /\ par \in {<<bc, w, h>> : bc \in {1}, w \in {65535, 65536, 65537, 131073}, h \in {1, -2}} \cup {<<8, 65536, 1>>, <<4, 65540, -1>>}
+        \* the factories at the edges of what they accept: <<bc, width high half, width low half, h, palette length, pixel count delta or -99 (no pixel argument)>>
+        \/ fam = "factory-edge" /\ par \in ({<<bc, 0, 4, 2, 0, -99>> : bc \in {0, 2, 3, 5, 7, 9, 16, 24, 32}}                      \* depths
+                                          \cup UNION {{<<bc, 0, 4, 2, np, -99>> : np \in {MaxPalette(bc), MaxPalette(bc) + 1}} : bc \in Depths} \* palette length
+                                          \cup {<<bc, hi, lo, h, 0, -99>> : bc \in {1, 8}, hi \in {32767, 32768, 65535}, lo \in {0, 65532, 65535}, h \in {0}}   \* widths around 2^31, no rows
+                                          \cup {<<8, 32768, 0, 1, 0, -99>>, <<1, 65535, 65504, -1, 0, -99>>}
+                                          \cup {<<bc, 0, 5, h, 1, d>> : bc \in Depths, h \in {-2, 3}, d \in {-1, 0, 1}})                 \* pixel argument of the wrong length
         \/ fam = "ts" /\ par \in {<<h, seed>> : h \in {0, 32, -32, 64}, seed \in {0, 5}}
         \/ fam = "tsbad" /\ par = <<>>
         \/ fam = "det" /\ par \in {<<b1, b2, b3, b4, pos>> : b1 \in {80, 81}, b2 \in {66, 67}, b3 \in {77, 78}, b4 \in {80, 81}, pos \in {0, 3}} \cup {<<66, 77, 1, 2, 0>>, <<66, 77, 80, 80, 3>>, <<66, 78, 1, 2, 0>>, <<67, 77, 1, 2, 3>>, <<77, 66, 0, 0, 0>>, <<98, 109, 0, 0, 0>>}
@@ -70,8 +76,16 @@ FlipReversesRows == LET f == Flip(Value) IN f.h = -Value.h /\ \A i \in 1..Len(f.
 CanonIsCanonical == LET c == Canon(Value) IN Valid(c) /\ Canon(c) = c /\ Len(c.palette) = MaxPalette(c.bc) /\ c.w = Value.w /\ c.h = Value.h
 EncodedLength == Len(Encode(Value)) = 54 + 4 * MaxPalette(Value.bc) + Pitch(Value.w, Value.bc) * Abs(Value.h)
 TilesetLaws == fam \in {"ts", "ts-rand", "ts-partial"} => IsTileset(Value) /\ Len(EncodeCustom(Value)) = 1096 + 32 * Abs(Value.h) /\ TopDown(Value).h <= 0
+\* a factory call is accepted iff the depth is an indexed one, the palette fits it, the width fits the header's signed field and the pixel argument
+\* (if any) has exactly pitch x |height| bytes; an accepted call yields a valid bitmap that serialises to the canonical encoding
+EdgeAccepts(p) == /\ p[1] \in Depths /\ p[5] <= MaxPalette(p[1]) /\ p[2] < 32768 /\ (p[6] = -99 \/ p[6] = 0)
+EdgeCase(p) == LET w == p[2] * 65536 + p[3]  ok == EdgeAccepts(p)  small == p[1] \in Depths /\ p[2] = 0 IN
+  [op |-> "bmp_factory_edge", bc |-> p[1], whi |-> p[2], wlo |-> p[3], h |-> p[4], npal |-> p[5], delta |-> p[6], expect |-> IF ok THEN "ok" ELSE "refuse",
+   rows |-> Abs(p[4]), pitch |-> IF small THEN Pitch(w, p[1]) ELSE 0,
+   emptyLen |-> IF ok THEN 54 + 4 * MaxPalette(p[1]) ELSE 0]                 \* length of the file when there are no rows (the wide accepted cases have none)
 Export ==
-  CASE fam = "full" -> Emit(<<"full", par>>, << BmpRT(Value, 0), Factory(par[2], par[3], par[1]) >>)
+  CASE fam = "factory-edge" -> Emit(<<"factory-edge", par>>, << EdgeCase(par) >>)
+    [] fam = "full" -> Emit(<<"full", par>>, << BmpRT(Value, 0), Factory(par[2], par[3], par[1]) >>)
     [] fam = "partial" -> Emit(<<"partial", par>>, << BmpRT(Value, Len(Value.palette)) >>)
     [] fam = "factory2" -> Emit(<<"factory2", par>>, << Factory2(Value) >>)
     [] fam = "rand" -> (Len(Value.palette) > 0 => Emit(<<"rand", Seed, par>>, << BmpRT(Value, RUsed(par[1], Value)), Factory2(Value) >>))
